@@ -310,6 +310,8 @@ pub struct Menu {
     pub two_approvers: bool,
     /// configuration changes that are part of L
     pub modifies: Vec<(&'static str, Modify)>,
+    /// quote denominations offered (empty = the first supported one)
+    pub quotes: Vec<&'static str>,
 }
 
 fn exact_total(price: &str, size: u128) -> Option<u128> {
@@ -337,6 +339,11 @@ fn escrow<'a>(cfg: &Cfg, amount: u128, denom: &'a str) -> Vec<(u128, &'a str)> {
 }
 
 pub fn mk_create_ask(cfg: &Cfg, slot: usize, base: &str, price: &str, size: u128) -> Act {
+    let q = cfg.quotes[0].clone();
+    mk_create_ask_q(cfg, slot, base, price, size, &q)
+}
+
+pub fn mk_create_ask_q(cfg: &Cfg, slot: usize, base: &str, price: &str, size: u128, quote: &str) -> Act {
     let owner = cfg.roles.get(if slot == 0 { "seller1" } else { "seller2" });
     Act::new(
         owner,
@@ -344,7 +351,7 @@ pub fn mk_create_ask(cfg: &Cfg, slot: usize, base: &str, price: &str, size: u128
         Req::CreateAsk {
             id: ASK_IDS[slot].into(),
             base: base.into(),
-            quote: cfg.quotes[0].clone(),
+            quote: quote.to_string(),
             price: price.into(),
             size,
         },
@@ -352,13 +359,18 @@ pub fn mk_create_ask(cfg: &Cfg, slot: usize, base: &str, price: &str, size: u128
 }
 
 pub fn mk_create_bid(cfg: &Cfg, slot: usize, price: &str, size: u128) -> Option<Act> {
+    let q = cfg.quotes[0].clone();
+    mk_create_bid_q(cfg, slot, price, size, &q)
+}
+
+pub fn mk_create_bid_q(cfg: &Cfg, slot: usize, price: &str, size: u128, quote: &str) -> Option<Act> {
     let owner = cfg.roles.get(if slot == 0 { "buyer1" } else { "buyer2" });
     let total = exact_total(price, size)?;
     if total == 0 {
         return None;
     }
     let fee = fee_due(cfg.bid_fee.as_ref().map(|f| f.0.as_str()), total);
-    let q = cfg.quotes[0].clone();
+    let q = quote.to_string();
     Some(Act::new(
         owner,
         escrow(cfg, total + fee, &q),
@@ -382,10 +394,13 @@ pub fn alphabet_l(cfg: &Cfg, m: &Menu) -> Vec<Act> {
     for slot in 0..m.ask_slots {
         let id = ASK_IDS[slot];
         let owner = r.get(if slot == 0 { "seller1" } else { "seller2" });
+        let quotes: Vec<String> = if m.quotes.is_empty() { vec![cfg.quotes[0].clone()] } else { m.quotes.iter().map(|s| s.to_string()).collect() };
         for base in &m.ask_bases {
             for p in &m.prices {
                 for s in &m.sizes {
-                    v.push(mk_create_ask(cfg, slot, base, p, *s));
+                    for q in &quotes {
+                        v.push(mk_create_ask_q(cfg, slot, base, p, *s, q));
+                    }
                 }
             }
         }
@@ -424,10 +439,13 @@ pub fn alphabet_l(cfg: &Cfg, m: &Menu) -> Vec<Act> {
     for slot in 0..m.bid_slots {
         let id = BID_IDS[slot];
         let owner = r.get(if slot == 0 { "buyer1" } else { "buyer2" });
+        let quotes: Vec<String> = if m.quotes.is_empty() { vec![cfg.quotes[0].clone()] } else { m.quotes.iter().map(|s| s.to_string()).collect() };
         for p in &m.prices {
             for s in &m.sizes {
-                if let Some(a) = mk_create_bid(cfg, slot, p, *s) {
-                    v.push(a);
+                for q in &quotes {
+                    if let Some(a) = mk_create_bid_q(cfg, slot, p, *s, q) {
+                        v.push(a);
+                    }
                 }
             }
         }
